@@ -284,6 +284,21 @@ pub fn check_disk_views(sim: &Sim, snap: &Snap) -> Result<(), Bad> {
     Ok(())
 }
 
+/// C09: a publication that is not yet visible in RRDP has its follow-up
+/// queued. Evaluated between operations (no task is claimed at that time).
+pub fn check_rrdp_followup_queued(sim: &Sim) -> Result<bool, Bad> {
+    let Ok(served) = sim.w().served() else { return Ok(false) };
+    let repo_dir = sim.w().repo_dir();
+    let Ok(notif) = rrdpc::read_notification(&repo_dir) else { return Ok(false) };
+    let Ok((_, _, snapshot)) = rrdpc::read_snapshot(&notif.snapshot.0) else { return Ok(false) };
+    let Some(d) = rrdpc::diff_maps("rrdp snapshot", &snapshot, "publisher details", &served) else { return Ok(false) };
+    let queued = sim.w().pending_tasks().into_iter().chain(sim.w().running_tasks()).any(|(_, n)| n.starts_with("update_rrdp_if_needed"));
+    if !queued {
+        return Err(bad("c09-followup", "rrdp-update-not-queued", format!("published content is not in the RRDP snapshot ({d}) and no RRDP update task is pending or running")));
+    }
+    Ok(true)
+}
+
 pub struct Expected {
     pub vrps: BTreeSet<Vrp>,
     pub aspas: BTreeSet<(u32, Vec<u32>)>,
